@@ -117,6 +117,13 @@ impl BlockDecoder {
             section.compressed_size
         );
 
+        if section.regenerated_size > MAX_BLOCK_SIZE {
+            return Err(DecompressBlockError::LiteralsTooBig {
+                regenerated_size: section.regenerated_size,
+                max: MAX_BLOCK_SIZE,
+            });
+        }
+
         let upper_limit_for_literals = match section.compressed_size {
             Some(x) => x as usize,
             None => match section.ls_type {
